@@ -473,8 +473,9 @@ class KafkaCodec(object):
             ApiVersionsRequest => [ApiVersionRequest]
                 ApiVersionRequest => ApiKey
         """
-        return cls._encode_message_header(client_id, correlation_id, api_version_request.api_key) + struct.pack(
-            ">i", api_version_request.api_version
+        # An ApiVersions v0 request has an empty body: the API version belongs in the request header.
+        return cls._encode_message_header(
+            client_id, correlation_id, api_version_request.api_key, api_version=api_version_request.api_version
         )
 
     @classmethod
